@@ -113,8 +113,10 @@ def main():
 
     wall = time.time() - t0
     if harness_trouble:
-        for h in harness_trouble:
+        for h in harness_trouble[:2]:
             print("HARNESS-ERROR", h, file=sys.stderr)
+        if len(harness_trouble) > 2:
+            print(f"HARNESS-ERROR ... and {len(harness_trouble) - 2} more shards", file=sys.stderr)
         shutil.rmtree(work, ignore_errors=True)
         return 2
 
